@@ -80,7 +80,7 @@ def make_scripted_base(vz, experimenter_lib, spec, script):
             for i, t in enumerate(suggestions):
                 seen.append({n: v.value for n, v in t.parameters.items()})
                 entry = None
-                if 0 <= k < len(script) and i < len(script[k]):
+                if getattr(self, 'scripting', False) and 0 <= k < len(script) and i < len(script[k]):
                     entry = script[k][i]
                 if entry is None and spec.get('default_value') is not None:
                     entry = {'metrics': {m['name']: {'value': spec['default_value']} for m in spec.get('metrics', [])}, 'infeasible': False, 'has_fm': True}
@@ -152,6 +152,7 @@ def run_evaluate(sc):
         out['init_exception'] = '%s: %s' % (type(e).__name__, str(e)[:300])
         return out
     base.script_offset = len(base.calls)
+    base.scripting = True
     out['constructor_calls'] = len(base.calls)
     trials = [vz.Trial(id=i + 1, parameters=dict(t['params'])) for i, t in enumerate(sc['batch'])]
     out['before'] = [trial_state(t) for t in trials]
